@@ -1,6 +1,7 @@
 import StepModel.ExpDecl
 import StepModel.ExpDeclSyn
 import StepModel.ExpLex
+import StepModel.ExpEntitySyn
 /-! Line-protocol driver for the exppp model (property C07).
 
   pp <linelen> <t:0|1> <c:0|1> SCHEMA…      -> `P <escaped text>` | `parse-error`
@@ -194,6 +195,61 @@ def rdLocal : Rd Local := do
   let ty ← rdTy
   pure { name, ty, init := if hi then some (.ident "E") else none }
 
+/-! `entity …` : an ENTITY declaration -> the tokens of `entityToks` and whether `parseEntity` reads them back
+attribute name: `P <hex>` | `R <hex supertype> <hex attr>`; supertype expression: `E <hex>` | `O <n> items…` | `B <andor 0/1> a b` -/
+def rdAttrName : Rd AttrName := do
+  match (← word) with
+  | "P" => pure (.plain (← hexw))
+  | "R" =>
+    let s ← hexw
+    let a ← hexw
+    pure (.redecl s a)
+  | _ => failure
+
+partial def rdSup : Rd SupEx := do
+  match (← word) with
+  | "E" => pure (.ent (← hexw))
+  | "O" =>
+    let xs ← rep (← nat) rdSup
+    pure (.oneof (xs.foldr SupEx.cons .nil))
+  | "B" =>
+    let o ← flag
+    let a ← rdSup
+    let b ← rdSup
+    pure (.bin o a b)
+  | _ => failure
+
+def rdEntity : Rd EntityDecl := do
+  let name ← hexw
+  let ab ← flag
+  let hs ← flag
+  let sup ← if hs then do pure (some (← rdSup)) else pure none
+  let sub ← rep (← nat) hexw
+  let expl ← rep (← nat) (do
+    let nm ← rdAttrName
+    let op ← flag
+    let ty ← rdTy
+    pure ({ name := nm, optional := op, ty } : ExplAttr))
+  let der ← rep (← nat) (do
+    let nm ← rdAttrName
+    let ty ← rdTy
+    pure ({ name := nm, ty, init := .ident "E" } : DerAttr))
+  let inv ← rep (← nat) (do
+    let nm ← rdAttrName
+    let k ← word
+    let hb ← flag
+    let en ← hexw
+    let fa ← hexw
+    pure ({ name := nm, aggr := if k = "-" then none else some (k, if hb then some (.ident "E", .ident "E") else none), ent := en, attr := fa } : InvAttr))
+  let uq ← rep (← nat) (do
+    let l ← word
+    let n ← nat
+    pure ({ label := if l = "-" then none else some (unhex l), refs := List.replicate n (.ident "E") } : UniqRule))
+  let wh ← rep (← nat) (do
+    let l ← word
+    pure ({ label := if l = "-" then none else some (unhex l), expr := .ident "E" } : DomRule))
+  pure { name, abstract := ab, sup, subOf := sub, expl, der, inv, uniq := uq, dom := wh }
+
 def esc (s : List Char) : String :=
   String.ofList (s.flatMap fun c => if c = '\n' then ['\\', 'n'] else if c = '\\' then ['\\', '\\'] else [c])
 
@@ -223,6 +279,13 @@ def handle (line : String) : String :=
     match lex (unhexL h.toList) with
     | some ts => "L " ++ " ".intercalate (ts.map wordOfTok)
     | none => "lex-error"
+  | "entity" :: rest =>
+    match rdEntity.run rest with
+    | some (e, []) =>
+      let ts := entityToks e
+      let back := (parseEntity (8 * ts.length + 64) (ts ++ [.kw "X"])).map (·.1)
+      "D " ++ " ".intercalate (ts.map dtokStr) ++ (if back == some e.norm then " | roundtrip-ok" else " | roundtrip-differs")
+    | _ => "bad-op"
   | "ty" :: rest =>
     match rdTy.run rest with
     | some (t, []) => "D " ++ " ".intercalate ((tyToks t).map dtokStr)
